@@ -492,12 +492,15 @@ def _delitem_callee(m, args, kwargs):
     for f in ("_keys_dict", "_inv_dict", "__storage__"):
         r = m.heap[(o.id, f)]
         m.heap[(r.id, "impl")].havoc(m, r)
+    saved_params = m.params0
     m.locals = {"self": o, "key": k}
+    m.params0 = dict(m.locals)
     try:
         for label, text in delitem.ensures:
             m.assume(m.spec(text))
     finally:
         m.locals = saved_locals
+        m.params0 = saved_params
         m.ghost = saved_ghost
     return None
 
